@@ -240,7 +240,7 @@ func main() {
 		"of the same form with a PRNG k2 in the same interpreter; observed per evaluation: panic class, later hook calls, successful recover() calls, global x, fast.VerifRunState; "+
 		"after each history a 22-evaluation defer/recover/closure battery is compared with an interpreter that saw only the definitions; "+
 		"a case is non-trivial when at least one evaluation of the history was aborted by an escaping panic; distinct by SHA-256 of (program source, k, k2)", nRandom))
-	wd := vh.NewWatchdog(rep, 20*time.Second)
+	wd := vh.NewWatchdog(rep, 120*time.Second) // generous: the machine may be heavily loaded; a real hang is still reported
 	cw := vh.NewCases(a, "From Coq Require Import List Arith ZArith.\nFrom Verif Require Import C13.Model C12.Model.\nImport ListNotations.", "case", "mismatches", 400)
 	runCorpus(rep)
 
